@@ -5,9 +5,10 @@ import (
 	"fmt"
 	"math/rand"
 	"runtime/debug"
+	"math"
+	"reflect"
 	"sort"
 
-	"github.com/github/git-sizer/counts"
 	"github.com/github/git-sizer/git"
 	"github.com/github/git-sizer/sizes"
 )
@@ -45,7 +46,7 @@ func runGraph(m *gmodel, style sizes.NameStyle, blobOrder, treeOrder, commitOrde
 	g := sizes.NewGraph(style)
 	for _, i := range blobOrder {
 		b := m.Blobs[i]
-		g.RegisterBlob(mustOID(b.OID), counts.NewCount32(b.Size))
+		registerBlob(g, mustOID(b.OID), b.Size)
 	}
 	for _, i := range treeOrder {
 		t := m.Trees[i]
@@ -85,6 +86,18 @@ func runGraph(m *gmodel, style sizes.NameStyle, blobOrder, treeOrder, commitOrde
 	}
 	h := g.HistorySize()
 	return numericJSON(h), ""
+}
+
+// registerBlob calls Graph.RegisterBlob whatever the width of its size parameter is in the tree under test.
+func registerBlob(g *sizes.Graph, oid git.OID, size uint64) {
+	f := reflect.ValueOf(g.RegisterBlob)
+	pt := f.Type().In(1)
+	v := reflect.New(pt).Elem()
+	if pt.Bits() == 32 && size > math.MaxUint32 {
+		size = math.MaxUint32
+	}
+	v.SetUint(size)
+	f.Call([]reflect.Value{reflect.ValueOf(oid), v})
 }
 
 // numericJSON renders only the numeric members of the v1 JSON, keys sorted.
